@@ -171,6 +171,44 @@ def run(ctx):
     # 逐月胎神: regular months only
     table(ctx, RULE, 'FetusMonth::from_index', range(12), lambda i: nm(t.mk('FetusMonth', i)), lambda i: G.FETUS_MONTH[i], u'逐月胎神', str)
 
+    # the views hand their OWN pillar to the table (the sexagenary day inside a 23:00 hour carries the next day's pillar)
+    from pete import SV, RInt, CellV, NONE, Opt, Symbolic
+    from dayline import DayLine
+    dlv = DayLine(I, pillar0=49, week0=1)
+
+    def fetus_via_scd(i):
+        # stored pillar i, civil day whose own pillar is i-1 (the 23:00 situation)
+        n = 2451545
+        while (n + 49) % 60 != (i - 1) % 60:
+            n += 1
+        d = SV('SixtyCycleDay', {'solar_day': dlv.day(n), 'month': SV('SixtyCycleMonth', {'year': SV('SixtyCycleYear', {'year': RInt(2000, 'isize')}), 'month': t.sixty(2)}), 'day': t.sixty(i)})
+        f = t.m(d, 'get_fetus_day')
+        return I.method(f, 'get_name')
+    table(ctx, RULE, 'SixtyCycleDay::get_fetus_day', C, fetus_via_scd, lambda i: I.method(I.call('FetusDay::new', [t.sixty(i)]), 'get_name'), 'the sexagenary-day view passes its own day pillar to the foetus table', cn, fn_site(p, 'FetusDay::from_sixty_cycle_day'))
+
+    def fetus_via_lunar(i):
+        n = 2451545
+        while (n + 49) % 60 != i:
+            n += 1
+        lm = SV('LunarMonth', {'year': SV('LunarYear', {'year': RInt(2000, 'isize')}), 'month': RInt(1, 'usize'), 'leap': False, 'day_count': RInt(30, 'usize'), 'index_in_year': RInt(0, 'usize'),
+                               'first_julian_day': SV('JulianDay', {'day': float(n)})})
+        ld = SV('LunarDay', {'month': lm, 'day': RInt(1, 'usize'), 'solar_day': CellV(NONE, 'refcell'), 'sixty_cycle_day': CellV(NONE, 'refcell')})
+        return I.method(t.m(ld, 'get_fetus_day'), 'get_name')
+    table(ctx, RULE, 'LunarDay::get_fetus_day', C, fetus_via_lunar, lambda i: I.method(I.call('FetusDay::new', [t.sixty(i)]), 'get_name'), 'the lunar-day view passes its own day pillar to the foetus table', cn, fn_site(p, 'FetusDay::from_lunar_day'))
+    for k_ in [k for k in list(I.overrides) if k.split('::')[0] in ('SolarDay', 'LunarDay', 'SolarTerm', 'JulianDay')]:
+        del I.overrides[k_]
+
+    # monthly foetus spirit from a lunar month: every regular month has one (also the month sharing its number with the year's leap month); a leap month has none
+    def fetus_month(x):
+        y, m_ = x
+        L = py(t.m(I.call('LunarYear::from_year', [y]), 'get_leap_month'))
+        lm = SV('LunarMonth', {'year': SV('LunarYear', {'year': RInt(y, 'isize')}), 'month': RInt(abs(m_), 'usize'), 'leap': m_ < 0, 'day_count': RInt(30, 'usize'),
+                               'index_in_year': RInt(abs(m_) - 1 + (1 if (m_ < 0 or (L and abs(m_) > L)) else 0), 'usize'), 'first_julian_day': SV('JulianDay', {'day': 0.0})})
+        r = t.m(lm, 'get_fetus')
+        return nm(r.v) if r.some else None
+    fm_dom = [(2023, m_) for m_ in list(range(1, 13)) + [-2]] + [(2020, m_) for m_ in (3, 4, -4, 5)] + [(2024, m_) for m_ in range(1, 13)]
+    table(ctx, RULE, 'FetusMonth::from_lunar_month', fm_dom, fetus_month, lambda x: None if x[1] < 0 else G.FETUS_MONTH[x[1] - 1], u'逐月胎神 from a lunar month (leap months have none; the regular twin of a leap month has one)', str, fn_site(p, 'FetusMonth::from_lunar_month'))
+
     # ---- 28 mansions / nine stars / twelve spirits / minor ren
     M = range(28)
     mn = lambda i: G.MANSIONS[i]
